@@ -167,6 +167,13 @@ Definition proto_v1 (attrs now : Z) (rs : list irec) : list N :=
     else proto_messages attrs now rs in
   put_bes 4 (zlen content) ++ content.
 
+(* produce.Request.Prepare(apiVersion): the message format follows the negotiated Produce API
+   version — record batches (format 2, the only one that carries headers) from v3 on, magic-1
+   message sets below.  Client.Produce / Writer through the Transport at version v: *)
+Definition format_of_produce_version (v : Z) : Z := if v <? 3 then 1 else 2.
+Definition proto_produce (v attrs now : Z) (rs : list irec) : option (list N) :=
+  if format_of_produce_version v =? 1 then Some (proto_v1 attrs now rs) else proto_v2 attrs now rs.
+
 (* ================================================================== readers: primitives *)
 (* Go's readVarInt on both paths: up to [fuel] bytes, 7 bits each, bits beyond 64 dropped *)
 Fixpoint go_uvarint (fuel : nat) (bs : list N) {struct fuel} : option (N * list N) :=
